@@ -47,6 +47,7 @@ PROP = {  # commit subject prefix -> (property, what failed)
     "fix: a function body is held to its return type under the names the body itself uses": ("C05", "'class A / def ma(self) -> Int => 1 / class R / def f: Str := \"s\" / def get(self) -> Int => self.f' was accepted (any of the 40 non-conforming type pairs, self.f and self.m() alike; former finding C05-F1): the 'fun body type' constraint was renamed with the ENCLOSING environment, whose mapping of self still pointed at the previous class, so it never met the body's own constraints"),
     "fix: every definition of a name gets a shadowing offset of its own": ("C09", "'def v: Int := 1 / if c then / def v: Str := \"s\" / def v: Int := 1' was refused ('expected an Int, was a Str'): the third definition got the offset v@1 that the definition inside the ended branch already had (924 sequences of the thorough scope machine for C09, 476 for C07; shortest 'DI[S]D')"),
     "fix: two arguments of one function may not have the same name": ("C02", "'def f(a: Int, a: Int)' (also 'self, self') was accepted and copied: SyntaxError duplicate argument in the emitted Python (110 single-token mutants of the repository samples in the thorough tier)"),
+    "fix: two arguments of one class may not have the same name": ("C02", "'class MyType(def a a: Str)' (a duplicated token in a class argument list) was accepted: duplicate argument in the synthesised __init__ (10 single-token mutants of the samples, thorough tier)"),
     "fix: the type of a function without arguments is annotated": ("C02", "'def f(b: () -> Str)' was annotated 'Callable[, str]' with annotate on (valid/function/definition.mamba and its mutants: invalid Python under one setting only, seen by C11 as parsability-differs)"),
     "fix: a class argument that is also handed to a parent": ("C01", "'class Ch(def y: Int): Pa, Ot(y)' with a method reading self.y was accepted and failed with AttributeError: the synthesised constructor skipped 'self.y = y' for every class argument that also appears among a parent's arguments (found by the inheritance matrix: 3 parent kinds x child with a second parent)"),
     "fix: the output directory is created with its missing parents": ("C13", "'-o out/py' with a missing parent 'out' failed a valid project with 'No such file or directory (os error 2)' and no diagnostic (custom layout, 310 transitions of the thorough BFS)"),
